@@ -44,7 +44,7 @@ def cases(draw):
     if cuts and total // min(cuts) > 1500:
         cuts = [max(c, total // 1500 + 1) for c in cuts]
     dev["cuts"] = cuts
-    tr = {"flavour": draw(sc.flavour()), "frag": sc.tame_frag(draw(sc.frag_tape()), total + 500, budget=20000)}
+    tr = {"flavour": draw(sc.flavour()), "frag": sc.tame_frag(draw(sc.frag_tape()), total + 500, budget=20000), "wcap": draw(sc.wcap_tape(2000, p_none=0.7))}
     if draw(st.sampled_from([False, False, True])):
         # a slow link: every read takes `frag_delay`; the caller's transport timeout is shorter than its read timeout.  Each read is in time and the
         # whole reply needs at most ~4 s, well inside read_timeout_s = 10 s
